@@ -156,4 +156,27 @@ theorem keeps_copyToStack (at_ : Int) (xs : List V) : Keeps (copyToStack at_ xs)
 @[spec] theorem copyToStack_spec (at_ : Int) (xs : List V) (c0 : CP) :
     ⦃fun s => ⌜c0 = cp s⌝⦄ copyToStack at_ xs ⦃post⟨fun _ s => ⌜cp s = c0⌝, fun _ s => ⌜cp s = c0⌝⟩⦄ := (keeps_copyToStack at_ xs).spec c0
 
+theorem keeps_fillUndefined (lo : Int) (n : Nat) : Keeps (fillUndefined lo n) := by
+  apply keeps_of_triple; intro c0
+  mvcgen [fillUndefined, stackSet, modS, UgoVerif.VM.panic]
+  invariants
+  · post⟨fun _ s => ⌜cp s = c0⌝, fun _ s => ⌜cp s = c0⌝⟩
+  all_goals vm_same
+@[spec] theorem fillUndefined_spec (lo : Int) (n : Nat) (c0 : CP) :
+    ⦃fun s => ⌜c0 = cp s⌝⦄ fillUndefined lo n ⦃post⟨fun _ s => ⌜cp s = c0⌝, fun _ s => ⌜cp s = c0⌝⟩⦄ := (keeps_fillUndefined lo n).spec c0
+
+theorem keeps_copySlots (dst : Int) (src : List V) : Keeps (copySlots dst src) := by
+  apply keeps_of_triple; intro c0
+  mvcgen [copySlots, stackSet, modS, UgoVerif.VM.panic]
+  invariants
+  · post⟨fun _ s => ⌜cp s = c0⌝, fun _ s => ⌜cp s = c0⌝⟩
+  all_goals vm_same
+@[spec] theorem copySlots_spec (dst : Int) (src : List V) (c0 : CP) :
+    ⦃fun s => ⌜c0 = cp s⌝⦄ copySlots dst src ⦃post⟨fun _ s => ⌜cp s = c0⌝, fun _ s => ⌜cp s = c0⌝⟩⦄ := (keeps_copySlots dst src).spec c0
+
+theorem keeps_stackSlice (lo hi : Int) : Keeps (stackSlice lo hi) := by
+  keeps_start; mvcgen [stackSlice, getS, UgoVerif.VM.panic]; all_goals vm_same
+theorem stackSlice_spec (lo hi : Int) (c0 : CP) :
+    ⦃fun s => ⌜c0 = cp s⌝⦄ stackSlice lo hi ⦃post⟨fun _ s => ⌜cp s = c0⌝, fun _ s => ⌜cp s = c0⌝⟩⦄ := (keeps_stackSlice lo hi).spec c0
+
 end UgoVerif.Proofs.VM
